@@ -100,6 +100,18 @@ SEEDS = {
  "C07e": dict(property="C07", needs="shutdown(wait=False) with a job pending + the worker leaving on idle timeout: the executor's queue references are cleared although the manager's re-spawn builds the new worker from them; the worker dies on None.get, pool broken"),
  "C10e": dict(property="C10", needs="thread A asks another max_workers while thread B asks other executor arguments: _resize now runs after the executor lock was released, A resizes (and returns) the instance B has just shut down"),
  "C20e": dict(property="C20", needs="a worker terminated by a signal without a symbolic name (real-time signals 34..64) in a lifecycle: the exit-code formatter raises KeyError in the manager thread, which dies without reaping; each lifecycle leaves a worker, a feeder thread, pipes and semaphores"),
+ "C01f": dict(property="C01", needs="a wake-up of the manager landing while it drains its wake-up pipe (flag reset before the drain), the cause of that wake-up producing no later inter-process event (task that fails to pickle, cancelled future), then ordinary work: its wake-ups are swallowed, the future stays pending"),
+ "C03f": dict(property="C03", needs="map() over a function returning a list (empty, nested, list subclass) for an item alone in its chunk (chunksize 1 or the left-over chunk): the bare result is taken for a chunk list and spliced into the output"),
+ "C04f": dict(property="C04", needs="a task that raises while its exception's __str__, or the __repr__ of its callable / an argument, raises too: a debug line formats them inside the worker's except block, the worker dies, the pool breaks"),
+ "C05f": dict(property="C05", needs="no explicit shutdown: the script ends (interpreter exit) with an accepted task still being pickled and the only worker leaving on idle timeout: the manager no longer re-spawns once _global_shutdown is set, the task never runs, exit hangs"),
+ "C08f": dict(property="C08", needs="get_reusable_executor(reuse=True) without max_workers on a pool partly (or wholly) drained by idle timeouts: 'unchanged' is computed from the workers currently registered, the executor is shrunk for good"),
+ "C09f": dict(property="C09", needs="singleton created small, later grown by a reuse with the same arguments: the call queue was sized from the first max_workers, the grown pool cannot run the requested number of tasks at once"),
+ "C10f": dict(property="C10", needs="growing resize with a finite idle timeout firing while the new workers are spawned (lock held): the worker now waits for the lock instead of staying another period and leaves as soon as the spawn ends"),
+ "C13f": dict(property="C13", needs="two threads creating their first loky primitives at the same time: ensure_running returns at once when another thread holds the tracker lock, the registration is written to fd None and fails after the semaphore was created: the name stays for ever"),
+ "C15f": dict(property="C15", needs="set_loky_pickler changed between submit() and the moment the manager builds the call item (backlog larger than the call queue, or a race): the submit-time pickler is no longer handed to the call item (regression of the earlier repair c17f367)"),
+ "C16f": dict(property="C16", needs="a wrapped callable with rebinding state (instance attributes, function attributes): functools.update_wrapper copies the wrapped __dict__ into the wrapper at construction, reads through the wrapper return the values of wrap time"),
+ "C18f": dict(property="C18", needs="an initializer that is a falsy callable object (callable container of optional hooks with __len__ == 0, __bool__ False): filtered out like None, no worker of the pool is initialised"),
+ "C20f": dict(property="C20", needs="kill-type shutdown with a backlog (more tasks than call-queue slots) after workers fetched tasks: the work-id queue is no longer drained, the manager dies of KeyError after the kill and before join_executor_internals: feeder thread, 4 fds, 3 semaphores per lifecycle"),
  "C20e": dict(property="C20", needs="a worker killed by a real-time signal (no signal.Signals member): the exit-code name lookup became a dict access under except ValueError, the manager dies composing the diagnostic and the lifecycle leaks workers, feeder thread, fds, semaphores"),
  "C20b": dict(property="C20", needs="kill-type lifecycle + worker with descendants one of which vanishes during the kill: kill_process_tree returns early, the worker is neither killed nor joined (child, fd, semaphore accumulate)"),
 }
